@@ -223,6 +223,9 @@ func bodyMain(args []string) error {
 			for r := 0; r < *reps; r++ {
 				body, old, hashes, cp, desc := renderTokens(rng, v.Toks)
 				gotOld, gotProof, gotCP, perr := shimParseBody(bytes.NewReader(body))
+				// what was parsed must stay what it is while the parser works on the NEXT request (another body of about the same size)
+				decoy := bytes.Repeat([]byte("old 7\nAAAAAAAAAAAAAAAAAAAAAAAAAAAAAAAAAAAAAAAAAAA=\n\ndecoy checkpoint body\n"), 1+len(body)/70)
+				_, _, _, _ = shimParseBody(bytes.NewReader(decoy))
 				ev := bodyEvent{E: "body", Run: "body", K: k, Toks: v.Toks, Accepted: perr == nil, Conc: desc}
 				if perr == nil {
 					ev.OldOK = gotOld == old
@@ -294,6 +297,7 @@ func bodyMain(args []string) error {
 			}
 			cp, _ := base64.StdEncoding.DecodeString(v.CP)
 			gotOld, gotProof, gotCP, perr := shimParseBody(bytes.NewReader(body))
+			_, _, _, _ = shimParseBody(bytes.NewReader(bytes.Repeat([]byte("old 9\n\nanother request's checkpoint\n"), 1+len(body)/36)))
 			events = append(events, bodyEvent{E: "writer", Run: "writer", K: j, Toks: []string{}, Accepted: perr == nil,
 				OldOK: gotOld == v.Old, ProofOK: perr == nil && sameHashes(gotProof, want), CPOK: bytes.Equal(gotCP, cp),
 				Conc: fmt.Sprintf("%d hashes, cp %dB", len(want), len(cp))})
